@@ -336,7 +336,7 @@ def check_c35(ctx):
              DATALENS="{0,1,%d}" % U, PADS="{0,1}", WUINCS="{0,1,2147483647}", IWS="IwsAll", MFS="MfsAll",
              HOPS='{"read","write","ret"}', STEPS=7, MINSTEPS=3, MAXHDRS=5, HEAVY='{"HEADERS"}', FIRSTH="FALSE")
     ctx.cov["constants"]["Gen_C35"] = g
-    cases += gen(ctx, g, 450 if q else 3000, 150, "C35")
+    cases += gen(ctx, g, 450 if q else 2000, 150, "C35")
     # every sequence of 2 (thorough: 3, the first one opening a stream) stimuli over a smaller alphabet
     gx = defs(MAXS=2, SIDS="{1,3}", KINDS='{"HEADERS","NEH","DATA","RST","WU","SETTINGS","PING","CONT"}',
               REQS='{"get","post","upper","connhdr"}', TRAILERS='{"trailers"}', DATALENS="{1}", PADS="{0}",
